@@ -113,6 +113,10 @@ type ClientSpec struct {
 	TLSReq    bool
 	JarmAlg   bool
 	UserCode  bool
+	// not in the model (suite c18, Go side only): the client authenticates with private_key_jwt
+	// (Authn) and publishes its keys at jwks_uri (JwksURI) instead of inline
+	Authn   string `json:",omitempty"`
+	JwksURI bool   `json:",omitempty"`
 }
 
 var grantCoq = map[string]string{
@@ -163,6 +167,9 @@ func (o Opt) coq() string {
 type Cred struct {
 	ID int
 	OK bool
+	// not in the model (suite c18): the credential is the key the client published BEFORE its last
+	// key rotation (a withdrawn key); only meaningful for clients with ClientSpec.Authn set
+	Old bool `json:",omitempty"`
 }
 
 func (c Cred) coq() string { return fmt.Sprintf("(mkCred %d %s)", c.ID, cB(c.OK)) }
